@@ -359,6 +359,13 @@ def _w_init(prog, roots, opts):
 
 
 def _w_expand(blob):
+    try:
+        return _w_expand2(blob)
+    except Unsupported as e:
+        return None, {'error': str(e)}, [], [], []
+
+
+def _w_expand2(blob):
     node = pickle.loads(blob)
     spec, layout_v = ROOTS[node.root]
     t0 = time.time()
@@ -487,6 +494,7 @@ class Result:
         self.key_forks = 0
         self.levels = []
         self.cut = None
+        self.error = None
 
 
 def explore_spec(pool, spec, root_id, root_node, deadline=None, max_viols=40, log=None):
@@ -503,6 +511,9 @@ def explore_spec(pool, spec, root_id, root_node, deadline=None, max_viols=40, lo
         nxt = []
         chunk = max(1, min(16, len(frontier) // 64))
         for out, stats, vout, rest, samples in pool.imap_unordered(_w_expand, frontier, chunksize=chunk):
+            if out is None:
+                res.error = stats['error']
+                continue
             res.paths += stats['paths']
             res.mir_steps += stats['mir_steps']
             res.ra_probes += stats['ra_probes']
@@ -523,6 +534,9 @@ def explore_spec(pool, spec, root_id, root_node, deadline=None, max_viols=40, lo
         res.states += len(nxt)
         res.levels.append(len(nxt))
         frontier = nxt
+        if res.error:
+            res.cut = 'unsupported construct'
+            break
         if log:
             log('  %s depth %d new %d total %d paths %d viol %d %.1fs' % (spec.name, depth, len(nxt), res.states, res.paths, len(res.viols), time.time() - t0))
         if deadline is not None and time.time() > deadline and frontier:
@@ -634,6 +648,13 @@ def expand_pair(node, spec, layout_v, consts, N):
 
 
 def _w_expand_pair(blob):
+    try:
+        return _w_expand_pair2(blob)
+    except Unsupported as e:
+        return [], 0, []
+
+
+def _w_expand_pair2(blob):
     node = pickle.loads(blob)
     spec, layout_v = ROOTS[node.root]
     consts = spec.const_keys() + spec.sym_names() + [m for m in MODS if m not in spec.const_keys()]
